@@ -20,6 +20,13 @@ def walker_rec(MID, LOG):
     return m
 
 
+def walker_recstar(MID, LOG):
+    def m(x: list):
+        LOG.append((MID, None))
+        return ("w", MID, [recurse(*[e]) for e in x])
+    return m
+
+
 def walker_recname(MID, LOG):
     def m(x: list):
         LOG.append((MID, None))
@@ -108,7 +115,7 @@ def placements(n, tier):
     if n >= 4:
         leaf_opts4 = [(), ("int",)]
     for w in range(n):
-        for kind in ("rec", "self", "recname", "selfname"):
+        for kind in ("rec", "self", "recname", "selfname", "recstar"):
             if n < 4:
                 for leaves in itertools.product(leaf_opts, repeat=n):
                     if any(leaves):
@@ -158,7 +165,7 @@ def ref_call(dag, own, kind, w, node, v, memo):
     mid = eff[t]
     if t != "list":
         return ("leaf", mid)
-    target = node if kind in ("rec", "recname") else w
+    target = node if kind in ("rec", "recname", "recstar") else w
     return ("w", mid, [ref_call(dag, own, kind, w, target, e, memo) for e in v])
 
 
@@ -300,7 +307,7 @@ def main(tier):
     return core.finish(
         PROP, tier, "model_checking", merged, t0,
         rule="all derivation DAGs with <= 4 functions (4 nodes: one first-use order in quick, 12 in thorough; fewer leaf placements) in which each derived function has one copied parent and 0-1 extra "
-             "mixins x every placement of one list walker (calling recurse, passing recurse as a value, calling or passing its own function by name) and of int / str leaf methods on "
+             "mixins x every placement of one list walker (calling recurse, calling it with unpacked arguments - the run-time helper -, passing recurse as a value, calling or passing its own function by name) and of int / str leaf methods on "
              "the nodes x all orders of first use of the nodes (and, for <= 3 nodes, the variant in which the first node used fails to build once on an invalid method, is repaired and used again; and the variants in which one plain leaf method is registered only after every node was used - on a node without children, or on any node when the derivation edges are linked) x nested inputs, probing every node; oracle: a reference interpreter "
              "(R5/R6) that re-enters the dispatching node for recurse and the defining node for a self-named walker; result trees "
              "record which node's method handled which element; non-trivial = non-empty list inputs with a defined result",
